@@ -1,7 +1,7 @@
 SPECIFICATION Spec
 CONSTANTS
   MaxParams = 8
-  PoolSize = 33
+  PoolSize = 35
 INVARIANTS RegsOk
 VIEW View
 CHECK_DEADLOCK FALSE
